@@ -92,7 +92,8 @@ def role_args(ex, ctx, drv: FuncInfo, roles):
     defaults = dict(zip([x.arg for x in a.args][len(a.args) - len(a.defaults):], a.defaults))
     for p in drv.params:
         src = roles.get(p, "")
-        if is_data_src(src):
+        if is_data_src(src) or (p == drv.params[0] and p.lower().startswith("x")):
+            # the data role (whether the call site hands over the data unchanged is decided by BINDING driver-data)
             v = data_sym(ex)
             st["X"] = v
         elif src.startswith("self._") and any(w in src for w in ("cost", "score", "saving")):
@@ -614,3 +615,8 @@ def check_predict_wiring(ctx, cls, pred, call, drv):
             b = calls[-1].data["bound"]
             okb = isinstance(b.get("penalty"), Num) and nf_equal(b["penalty"].nf, sym("penalty_")) and isinstance(b.get("min_segment_length"), Num) and nf_equal(b["min_segment_length"].nf, sym("min_segment_length"))
             ctx.check(okb, "C02.g BINDING", "driver-arguments", calls[-1].loc(), "the driver receives the fitted penalty_ and the configured min_segment_length", found={k: valkey(v) for k, v in b.items() if k in ("penalty", "min_segment_length")})
+            # ... and the data itself: the values of the (normalised) input frame, not a transformed copy
+            dparam = drv.params[0] if drv.params else None
+            dv = b.get(dparam)
+            okx = isinstance(dv, Num) and dv.nf is not None and nf_equal(dv.nf, sym("X"))
+            ctx.check(okx, "C02.g BINDING", "driver-data", calls[-1].loc(), "the driver receives the values of the input as they are (costs are evaluated on the data, not on a centred / scaled copy)", found=valkey(dv)[:120] if dv is not None else "nothing", expected="X.values")
